@@ -286,6 +286,14 @@ func checkC40(c *Ctx, r *Report) {
 		if strings.HasSuffix(t, "EtcdStore") && (f == "available" || f == "lastError") {
 			return "", false
 		}
+		// … and, by kind rather than by name, any field whose type is one of sync/atomic's cells: an
+		// atomic counter or flag is bookkeeping (request, error and retry counts), never the place
+		// where topics, offsets, groups or configuration are kept — those live in maps and messages
+		if pt, ok := fa.Type().Underlying().(*types.Pointer); ok {
+			if nt, ok := pt.Elem().(*types.Named); ok && nt.Obj().Pkg() != nil && nt.Obj().Pkg().Path() == "sync/atomic" {
+				return "", false
+			}
+		}
 		return t[strings.LastIndex(t, ".")+1:] + "." + f, true
 	}
 	eng := newPtsEngine(m, nil)
